@@ -32,6 +32,7 @@ EXTENDS Naturals, Sequences, FiniteSets, TLC, Json
 CONSTANTS NFiles, MaxRuns, MaxFaults, MaxCrash, MaxEnv, MaxAttempts, SettleRuns, Emit,
           Chunks,       \* file length in chunks (3: two truncation points)
           PutAllowed,   \* transport faults a PutFile may suffer (generation bias; MC uses all)
+          MaxRestart,   \* graceful restarts (new Agent instance) a schedule may contain
           MinRuns,      \* faults may stop only after this many runs (generation bias; MC uses 0)
           EnvAllowed    \* environment actions the configuration may use (generation bias; MC uses all)
 
@@ -48,15 +49,16 @@ VARIABLES spoke,     \* [Files -> {"present","gone"}]
           phase, run, faults, crashes, envs, settle,          \* budgets
           w, c,      \* ledger writes / hub calls of the running pass (history only)
           flags,     \* property monitors: set of strings
+          restarts,  \* graceful restarts so far
           seeded,    \* files at whose hub path the environment placed foreign bytes
           hist       \* schedule (history only)
 
 vars == <<spoke, led, att, ck, hubfile, idx, staged, pc, qPresent, qConflict, qMissing, cur, off, res,
-          phase, run, faults, crashes, envs, settle, w, c, flags, seeded, hist>>
+          phase, run, faults, crashes, envs, settle, w, c, flags, seeded, restarts, hist>>
 
 \* what the model checker distinguishes (history variables hidden)
 View == <<spoke, led, att, ck, hubfile, idx, staged, pc, qPresent, qConflict, qMissing, cur, off, res,
-          phase, run, faults, crashes, envs, settle, flags, seeded>>
+          phase, run, faults, crashes, envs, settle, flags, seeded, restarts>>
 
 Terminal == {"synced", "skipped", "failed"}
 
@@ -82,7 +84,7 @@ Init ==
     /\ pc = "idle" /\ qPresent = <<>> /\ qConflict = <<>> /\ qMissing = <<>> /\ cur = 0 /\ off = 0
     /\ res = [k |-> "none", n |-> 0]
     /\ phase = "faulty" /\ run = 0 /\ faults = 0 /\ crashes = 0 /\ envs = 0 /\ settle = 0
-    /\ w = 0 /\ c = 0 /\ flags = {} /\ seeded = {} /\ hist = <<>>
+    /\ w = 0 /\ c = 0 /\ flags = {} /\ seeded = {} /\ restarts = 0 /\ hist = <<>>
 
 -----------------------------------------------------------------------------
 \* ledger write helpers.  Every state change goes through Move, which also monitors the property.
@@ -110,7 +112,7 @@ EndPass ==
 -----------------------------------------------------------------------------
 \* budgets / phases
 StartPass ==
-    /\ UNCHANGED seeded
+    /\ UNCHANGED <<seeded, restarts>>
     /\ pc = "idle" /\ phase \in {"faulty", "settle"}
     /\ phase = "faulty" => run < MaxRuns
     /\ pc' = "recover" /\ w' = 0 /\ c' = 0
@@ -119,7 +121,7 @@ StartPass ==
     /\ UNCHANGED <<spoke, led, att, ck, HubVars, AgentIdleVars, phase, faults, crashes, envs, settle, flags>>
 
 StopFaults ==
-    /\ UNCHANGED seeded
+    /\ UNCHANGED <<seeded, restarts>>
     /\ pc = "idle" /\ phase = "faulty" /\ run >= MinRuns
     /\ phase' = "settle"
     /\ hist' = Append(hist, [a |-> "settle"])
@@ -128,14 +130,14 @@ StopFaults ==
 -----------------------------------------------------------------------------
 \* the agent pass
 Recover ==        \* UPDATE sync_ledger SET state='pending' WHERE state='in_flight'
-    /\ UNCHANGED seeded
+    /\ UNCHANGED <<seeded, restarts>>
     /\ pc = "recover"
     /\ led' = [f \in Files |-> IF led[f] = "in_flight" THEN "pending" ELSE led[f]]
     /\ w' = w + 1 /\ pc' = "discover"
     /\ UNCHANGED <<spoke, att, ck, HubVars, AgentIdleVars, Budget, c, flags, hist>>
 
 Discover ==       \* ListObjects + TrackBatch (one transaction; not executed when nothing is new)
-    /\ UNCHANGED seeded
+    /\ UNCHANGED <<seeded, restarts>>
     /\ pc = "discover"
     /\ LET new == {f \in Files : spoke[f] = "present" /\ led[f] = "none"} IN
          /\ led' = [f \in Files |-> IF f \in new THEN "pending" ELSE led[f]]
@@ -144,7 +146,7 @@ Discover ==       \* ListObjects + TrackBatch (one transaction; not executed whe
     /\ UNCHANGED <<spoke, att, ck, HubVars, AgentIdleVars, Budget, c, flags, hist>>
 
 Page ==           \* PendingPage: only 'pending' rows, newest first; nothing pending ends the pass
-    /\ UNCHANGED seeded
+    /\ UNCHANGED <<seeded, restarts>>
     /\ pc = "page"
     /\ IF {f \in Files : led[f] = "pending"} = {}
          THEN /\ EndPass /\ UNCHANGED <<run, faults, crashes, envs>>
@@ -158,7 +160,7 @@ StaleSet(P) == {f \in P : idx[f] \in {"own", "foreign"} /\ hubfile[f] = "none"}
 IdxAfterReconcile(P) == [f \in Files |-> IF f \in StaleSet(P) THEN "none" ELSE idx[f]]
 
 Reconcile(fault) ==
-    /\ UNCHANGED seeded
+    /\ UNCHANGED <<seeded, restarts>>
     /\ pc = "reconcile"
     /\ fault # "none" => CanFault
     /\ LET P    == {f \in Files : led[f] = "pending"}
@@ -178,7 +180,7 @@ Reconcile(fault) ==
     /\ UNCHANGED <<spoke, led, att, ck, hubfile, staged, cur, off, res, w, flags>>
 
 MarkPresent ==
-    /\ UNCHANGED seeded
+    /\ UNCHANGED <<seeded, restarts>>
     /\ pc = "present"
     /\ IF qPresent = <<>>
          THEN /\ pc' = "conflict" /\ UNCHANGED <<led, flags, qPresent, w>>
@@ -186,7 +188,7 @@ MarkPresent ==
     /\ UNCHANGED <<spoke, att, ck, HubVars, qConflict, qMissing, cur, off, res, Budget, c, hist>>
 
 MarkConflict ==
-    /\ UNCHANGED seeded
+    /\ UNCHANGED <<seeded, restarts>>
     /\ pc = "conflict"
     /\ IF qConflict = <<>>
          THEN /\ pc' = "send" /\ UNCHANGED <<led, flags, qConflict, w>>
@@ -194,7 +196,7 @@ MarkConflict ==
     /\ UNCHANGED <<spoke, att, ck, HubVars, qPresent, qMissing, cur, off, res, Budget, c, hist>>
 
 Send ==           \* sendOne: MarkInFlight (attempts + 1); the offset is the checkpoint read with the page
-    /\ UNCHANGED seeded
+    /\ UNCHANGED <<seeded, restarts>>
     /\ pc = "send"
     /\ IF qMissing = <<>>
          THEN /\ EndPass /\ UNCHANGED <<run, faults, crashes, envs>>
@@ -225,7 +227,7 @@ Recv(f, o, b, ixok) ==
 PutFaults == {"none", "dropBefore", "dropAfter", "short", "shortDrop", "corrupt", "backpressure", "idxfail"}
 
 Put(fault) ==
-    /\ UNCHANGED seeded
+    /\ UNCHANGED <<seeded, restarts>>
     /\ pc = "put"
     /\ fault # "none" => (CanFault /\ spoke[cur] = "present")
     /\ LET f == cur
@@ -247,11 +249,39 @@ Put(fault) ==
     /\ hist' = Append(hist, [a |-> "call", kind |-> "put", f |-> cur, fault |-> fault])
     /\ UNCHANGED <<spoke, led, att, ck, qPresent, qConflict, qMissing, cur, off, phase, run, crashes, envs, settle, w>>
 
+\* The pass context ends while a PutFile is on the wire (contact window closes, run timeout, cancellation): the
+\* transport returns the context error, every later ledger statement of this pass fails on the cancelled context,
+\* so the row STAYS in_flight, nothing else is sent, and Run returns.  The process and its Agent live on:
+\* the next pass is a new pass on the same Agent instance (only Crash / Restart give a new instance).
+\* kind = "cancel": the request did not reach the hub;  "cancelAfter": the hub processed it, the reply died with the context.
+PutCancel(kind) ==
+    /\ UNCHANGED <<seeded, restarts>>
+    /\ pc = "put" /\ CanFault /\ spoke[cur] = "present" /\ kind \in PutAllowed
+    /\ LET f == cur
+           r == Recv(f, off, "full", TRUE) IN
+         IF kind = "cancelAfter"
+           THEN /\ hubfile' = [hubfile EXCEPT ![f] = r.hf] /\ idx' = [idx EXCEPT ![f] = r.ix]
+                /\ staged' = [staged EXCEPT ![f] = r.st]
+           ELSE UNCHANGED HubVars
+    /\ pc' = "idle" /\ qPresent' = <<>> /\ qConflict' = <<>> /\ qMissing' = <<>>
+    /\ faults' = faults + 1 /\ c' = c + 1
+    /\ hist' = Append(hist, [a |-> "call", kind |-> "put", f |-> cur, fault |-> kind])
+    /\ UNCHANGED <<spoke, led, att, ck, cur, off, res, phase, run, crashes, envs, settle, w, flags>>
+
+\* a graceful process restart between passes: new Agent instance, ledger reopened from the same file.  As the code is
+\* written (RecoverInFlight at the start of EVERY pass) it changes nothing; it is a schedule element for the driver.
+Restart ==
+    /\ UNCHANGED seeded
+    /\ pc = "idle" /\ phase = "faulty" /\ restarts < MaxRestart
+    /\ restarts' = restarts + 1
+    /\ hist' = Append(hist, [a |-> "restart"])
+    /\ UNCHANGED <<spoke, led, att, ck, HubVars, pc, AgentIdleVars, Budget, w, c, flags>>
+
 \* MarkFailed: CASE WHEN attempts >= cap THEN failed ELSE pending
 FailTo(f, cap) == IF att[f] >= cap THEN "failed" ELSE "pending"
 
 After ==
-    /\ UNCHANGED seeded
+    /\ UNCHANGED <<seeded, restarts>>
     /\ pc = "after"
     /\ LET f == cur IN
        CASE res.k = "done" ->
@@ -268,7 +298,7 @@ After ==
     /\ UNCHANGED <<spoke, att, HubVars, qPresent, qConflict, qMissing, cur, off, res, Budget, c, hist>>
 
 Fail ==
-    /\ UNCHANGED seeded
+    /\ UNCHANGED <<seeded, restarts>>
     /\ pc = "fail"
     /\ Move(cur, FailTo(cur, MaxAttempts)) /\ pc' = "send" /\ w' = w + 1
     /\ UNCHANGED <<spoke, att, ck, HubVars, qPresent, qConflict, qMissing, cur, off, res, Budget, c, hist>>
@@ -276,7 +306,7 @@ Fail ==
 -----------------------------------------------------------------------------
 \* spoke crash: the process dies after any ledger write / hub call of the pass; rows stay as they are
 Crash ==
-    /\ UNCHANGED seeded
+    /\ UNCHANGED <<seeded, restarts>>
     /\ pc \notin {"idle", "recover"} /\ phase = "faulty" /\ crashes < MaxCrash
     /\ pc' = "idle" /\ crashes' = crashes + 1
     /\ qPresent' = <<>> /\ qConflict' = <<>> /\ qMissing' = <<>>
@@ -301,7 +331,7 @@ Env(kind, f) ==
          [] kind = "foreignraw"  -> /\ hubfile[f] = "none" /\ idx[f] = "none"      \* bytes placed in hub storage directly
                                     /\ hubfile' = [hubfile EXCEPT ![f] = "foreign"]
                                     /\ UNCHANGED <<spoke, idx, staged>>
-    /\ envs' = envs + 1
+    /\ envs' = envs + 1 /\ UNCHANGED restarts
     /\ seeded' = IF kind \in {"foreign", "foreignraw"} THEN seeded \cup {f} ELSE seeded
     /\ hist' = Append(hist, [a |-> "env", kind |-> kind, f |-> f])
     /\ UNCHANGED <<led, att, ck, pc, AgentIdleVars, phase, run, faults, crashes, settle, w, c, flags>>
@@ -313,7 +343,8 @@ Next ==
     \/ \E ft \in {"none", "drop", "dropAfter"} : Reconcile(ft)
     \/ MarkPresent \/ MarkConflict \/ Send
     \/ \E ft \in PutFaults \cap ({"none"} \cup PutAllowed) : Put(ft)
-    \/ After \/ Fail \/ Crash
+    \/ \E k \in {"cancel", "cancelAfter"} : PutCancel(k)
+    \/ After \/ Fail \/ Crash \/ Restart
     \/ \E k \in EnvKinds \cap EnvAllowed, f \in Files : Env(k, f)
 
 Spec == Init /\ [][Next]_vars
